@@ -33,6 +33,9 @@ class C20(PropBase):
             a, _ = gen.rand_addr_pair(rng, asym_prob=0)
         from props.C19 import MAXV
 
+        txh0, rxh0 = ref.half(a, 'tx'), ref.half(a, 'rx')
+        both_prefix = txh0['mode'] in ref.MODE_PREFIX and rxh0['mode'] in ref.MODE_PREFIX
+
         def clean_call():
             c = rand_set_call(rng)
             # valid values only, addressing flags untouched (hypothesis of C20_ext)
@@ -41,6 +44,13 @@ class C20(PropBase):
                     c['args'][k] = 1
                 if k in ('ext_address', 'rx_ext_address'):
                     c['args'][k] = None
+                    if both_prefix and c['op'] == 'set_opts' and rng.random() < 0.6:
+                        # extension bytes configured by hand BEFORE bind() of an address that uses them: bind() must overwrite both, also
+                        # when the one it looks at first already happens to be right
+                        if k == 'ext_address':
+                            c['args'][k] = ref.tx_prefix(txh0)[0] if rng.random() < 0.6 else rng.randrange(256)
+                        else:
+                            c['args'][k] = rng.randrange(256)
                 if k == 'optflag' and c['args'][k] is not None:
                     c['args'][k] = (min(c['args'][k], 0xFFFFFFFF)) & ~0x202
                 elif c['args'][k] is not None:
@@ -48,6 +58,9 @@ class C20(PropBase):
             return c
         pre = [clean_call() for _ in range(rng.randrange(0, 3))]
         seq = pre + [{'op': 'bind', 'addr': a}]
+        if rng.random() < 0.2:
+            # the kernel refuses the first bind (unknown interface, ...): the wrapper must not consider itself bound
+            seq = pre + [{'op': 'bindfail', 'addr': a}] + ([{'op': 'bind', 'addr': a}] if rng.random() < 0.6 else [])
         extras = [{'op': 'send'}, {'op': 'recv'}, {'op': 'close'}, clean_call(), {'op': 'get_opts'}, {'op': 'send'}]
         for e in extras:
             if rng.random() < 0.6:
@@ -89,6 +102,9 @@ class C20(PropBase):
             elif name == 'close':
                 bound = False
                 closed = True
+            elif name == 'bindfail':
+                if res == 'ok':
+                    out.append(('guards', 'bind() returned normally although the kernel refused it'))
             elif name == 'bind':
                 tx_pre, rx_pre = txh['mode'] in ref.MODE_PREFIX, rxh['mode'] in ref.MODE_PREFIX
                 if a.get('asym') and tx_pre != rx_pre:
@@ -143,6 +159,24 @@ class C20(PropBase):
                 if (k_acc_id, k_acc_ext, k_acc_pre) != (fid, fext, py_pre):
                     out.append(('equiv', 'kernel accepts id %x ext=%s prefix %s; the Python layer accepts physical id %x ext=%s prefix %s' % (
                         k_acc_id, k_acc_ext, k_acc_pre.hex(), fid, fext, py_pre.hex())))
+                # the same against the REAL Address object a pure-Python layer would be given (not only the reference): emission ...
+                pv = after.get('py_view')
+                if pv and 'error' not in pv:
+                    if (k_emit_id, k_emit_ext, k_prefix) != (pv['tx_id'], pv['tx_ext'], bytes(pv['prefix'])):
+                        out.append(('equiv', 'kernel emits id %x ext=%s prefix %s; Address object: id %x ext=%s prefix %s' % (
+                            k_emit_id, k_emit_ext, k_prefix.hex(), pv['tx_id'], pv['tx_ext'], bytes(pv['prefix']).hex())))
+                    # ... and acceptance on probe frames around the bound identifier (functional identifiers aside: the kernel socket is 1-to-1)
+                    func_id = gen.rx_match_frame(a, b'', functional=True)[0]
+                    for (pid, pext, b0, py_acc) in pv['probes']:
+                        if pid == func_id and pid != fid:
+                            continue
+                        k_acc = (pid == k_acc_id and pext == k_acc_ext and (not k_acc_pre or b0 == k_acc_pre[0]))
+                        if k_acc != py_acc:
+                            out.append(('equiv', 'frame id %x ext=%s first byte %02x: kernel socket %s it, Address.is_for_me %s it' % (
+                                pid, pext, b0, 'accepts' if k_acc else 'drops', 'accepts' if py_acc else 'drops')))
+                            break
+                elif pv and 'error' in pv:
+                    out.append(('equiv', 'Address object of the bound address could not be queried: %s' % pv['error']))
         return out[:3]
 
     def nontrivial_key(self, sc, lines_in, impl_out):
